@@ -8,11 +8,11 @@
    Content abstraction: what a step leaves in its workspace is determined by
    its digest [d] (variant, exec paths) and the *hashes* of its inputs; that
    equal input hashes mean equal input content is property C11. *)
-From Coq Require Import List Arith Bool.
+From Coq Require Import List NArith Arith Bool.
 Import ListNotations.
 
-Definition D := nat.            (* step digest as compared by the builder *)
-Definition Hsh := nat.          (* directory hash *)
+Definition D := N.              (* step digest as compared by the builder *)
+Definition Hsh := N.            (* directory hash *)
 
 Inductive content :=
 | Empty
@@ -34,10 +34,10 @@ Record slot := {
 Definition empty_slot : slot :=
   {| exists_ := false; cont := Empty; dirst := None; inputs := None; result := None; vidst := None |}.
 
-Fixpoint list_eqb (a b : list nat) : bool :=
+Fixpoint list_eqb (a b : list N) : bool :=
   match a, b with
   | [], [] => true
-  | x :: a', y :: b' => Nat.eqb x y && list_eqb a' b'
+  | x :: a', y :: b' => N.eqb x y && list_eqb a' b'
   | _, _ => false
   end.
 
@@ -50,16 +50,16 @@ Definition opt_eqb {A} (e : A -> A -> bool) (a b : option A) : bool :=
 Definition run_on (d : D) (i : list Hsh) (c : content) : content :=
   match c with
   | Empty => Out d i
-  | Out d' _ => if Nat.eqb d d' then Out d i else Garbage
-  | Partial d' => if Nat.eqb d d' then Out d i else Garbage
+  | Out d' _ => if N.eqb d d' then Out d i else Garbage
+  | Partial d' => if N.eqb d d' then Out d i else Garbage
   | Garbage => Garbage
   end.
 
 Definition crash_on (d : D) (c : content) : content :=    (* run interrupted / script failed midway *)
   match c with
   | Empty => Partial d
-  | Out d' _ => if Nat.eqb d d' then Partial d else Garbage
-  | Partial d' => if Nat.eqb d d' then Partial d else Garbage
+  | Out d' _ => if N.eqb d d' then Partial d else Garbage
+  | Partial d' => if N.eqb d d' then Partial d else Garbage
   | Garbage => Garbage
   end.
 
@@ -67,6 +67,7 @@ Inductive mop :=
 | MMkdir                         (* _constructDir creates the directory *)
 | MPrune                         (* emptyDirectory *)
 | MReset (d : D)                 (* resetWorkspaceState(path, d) *)
+| MResetNone                     (* resetWorkspaceState(path, None): invalidate before pruning *)
 | MDelInputs
 | MSetTime                       (* setResultHash(now) *)
 | MRun (d : D) (i : list Hsh) (clean : bool)   (* _runShell; clean = workspace emptied first *)
@@ -85,6 +86,7 @@ Section Hash.
     | MMkdir => {| exists_ := true; cont := cont s; dirst := dirst s; inputs := inputs s; result := result s; vidst := vidst s |}
     | MPrune => {| exists_ := exists_ s; cont := Empty; dirst := dirst s; inputs := inputs s; result := result s; vidst := vidst s |}
     | MReset d => {| exists_ := exists_ s; cont := cont s; dirst := Some d; inputs := None; result := None; vidst := None |}
+    | MResetNone => {| exists_ := exists_ s; cont := cont s; dirst := None; inputs := None; result := None; vidst := None |}
     | MDelInputs => {| exists_ := exists_ s; cont := cont s; dirst := dirst s; inputs := None; result := result s; vidst := vidst s |}
     | MSetTime => {| exists_ := exists_ s; cont := cont s; dirst := dirst s; inputs := inputs s; result := Some RTime; vidst := vidst s |}
     | MRun d i clean =>
@@ -108,8 +110,8 @@ Section Hash.
   (* ---- _cookBuildStep *)
   Definition build_prepare (d : D) (s : slot) : list mop :=
     (if exists_ s then [] else [MMkdir]) ++
-    (if negb (exists_ s) || negb (opt_eqb Nat.eqb (dirst s) (Some d))
-     then (if exists_ s then [MPrune] else []) ++ [MReset d] else []).
+    (if negb (exists_ s) || negb (opt_eqb N.eqb (dirst s) (Some d))
+     then (if exists_ s then [MResetNone; MPrune] else []) ++ [MReset d] else []).
 
   Definition build_body (c : cfg) (d : D) (ins : list Hsh) (s : slot) : list mop :=
     if negb (force c) && opt_eqb list_eqb (inputs s) (Some ins)
@@ -121,8 +123,8 @@ Section Hash.
 
   (* ---- _preparePackageStep + _cookPackageStep (no download / sharing: C07, C15) *)
   Definition package_prepare (d : D) (s : slot) : list mop :=
-    let prune := exists_ s && negb (opt_eqb Nat.eqb (dirst s) (Some d)) in
-    (if prune then [MPrune] else []) ++
+    let prune := exists_ s && negb (opt_eqb N.eqb (dirst s) (Some d)) in
+    (if prune then [MResetNone; MPrune] else []) ++
     (if negb (exists_ s) || prune then [MReset d] else []) ++
     (if exists_ s then [] else [MMkdir]).
 
@@ -137,18 +139,21 @@ Section Hash.
   (* ---- _cookCheckoutStep for script / import checkouts (no SCM switch, no attic: C12).
      [det] = isDeterministic.  The directory state is stored without the variant
      key before the script runs and completely afterwards; the result hash is
-     always recomputed. *)
+     always recomputed.  Source workspaces are never wiped by Bob, so the
+     "deterministic scripts" assumption has to be read strictly here: a
+     checkout script / import is oblivious to what an earlier variant left
+     behind — expressed by evaluating it as on an empty directory. *)
   Definition checkout_body (c : cfg) (det : bool) (d : D) (ins : list Hsh) (s0 s : slot) : list mop :=
     let created := negb (exists_ s0) in
-    let stale_result := match result s with Some (RHash h) => negb (Nat.eqb h (hash (cont s))) | _ => true end in
-    if created || force c || negb det || negb (opt_eqb Nat.eqb (dirst s) (Some d))
+    let stale_result := match result s with Some (RHash h) => negb (N.eqb h (hash (cont s))) | _ => true end in
+    if created || force c || negb det || negb (opt_eqb N.eqb (dirst s) (Some d))
        || negb (opt_eqb list_eqb (inputs s) (Some ins)) || stale_result
     then [MClrDir] ++ (match result s with Some _ => [MSetTime] | None => [] end)
-         ++ [MRun d ins false; MSetDir d; MSetInputs ins; MSetVid d; MSetResult]
+         ++ [MRun d ins true; MSetDir d; MSetInputs ins; MSetVid d; MSetResult]
     else [MSetResult].
 
   Definition cook_checkout (c : cfg) (det : bool) (d : D) (ins : list Hsh) (s : slot) : list mop :=
-    let p := if exists_ s then [] else [MMkdir; MReset 0; MClrDir] in
+    let p := if exists_ s then [] else [MMkdir; MReset 0%N; MClrDir] in
     p ++ checkout_body c det d ins s (exec p s).
 
   (* does a trace execute the script? *)
@@ -162,5 +167,50 @@ Section Hash.
     | o :: r =>
       [] :: (match o with MRun d _ cl => [[MRunCrash d cl]] | _ => [] end)
          ++ map (cons o) (crash_traces r)
+    end.
+
+  (* ------------------------------------------------------------------ project level *)
+  Inductive kind := KCheckout (det : bool) | KBuild | KPackage.
+
+  Record stepdef := {
+    sd_path : N;                   (* workspace directory *)
+    sd_kind : kind;
+    sd_d : D;
+    sd_deps : list N               (* workspaces of the input steps *)
+  }.
+
+  Definition project := list stepdef.      (* in dependency order *)
+  Definition wstate := N -> slot.
+
+  Definition upd {A} (w : N -> A) (p : N) (x : A) : N -> A :=
+    fun q => if N.eqb q p then x else w q.
+
+  Definition res_hash (w : wstate) (p : N) : Hsh :=
+    match result (w p) with Some (RHash h) => h | _ => 0%N end.
+
+  Definition cook_step (c : cfg) (w : wstate) (sd : stepdef) : list mop :=
+    let ins := map (res_hash w) (sd_deps sd) in
+    match sd_kind sd with
+    | KCheckout det => cook_checkout c det (sd_d sd) ins (w (sd_path sd))
+    | KBuild => cook_build c (sd_d sd) ins (w (sd_path sd))
+    | KPackage => cook_package c (sd_d sd) ins (w (sd_path sd))
+    end.
+
+  Definition build_step (c : cfg) (w : wstate) (sd : stepdef) : wstate :=
+    upd w (sd_path sd) (exec (cook_step c w sd) (w (sd_path sd))).
+
+  Definition build (c : cfg) (P : project) (w : wstate) : wstate := fold_left (build_step c) P w.
+
+  (* what a from-scratch build of P leaves in every workspace *)
+  Definition clean_step (cl : N -> content) (sd : stepdef) : N -> content :=
+    upd cl (sd_path sd) (Out (sd_d sd) (map (fun p => hash (cl p)) (sd_deps sd))).
+
+  Definition clean (P : project) : N -> content := fold_left clean_step P (fun _ => Empty).
+
+  (* number of script executions of a build *)
+  Fixpoint build_runs (c : cfg) (P : project) (w : wstate) : list (N * bool) :=
+    match P with
+    | [] => []
+    | sd :: r => (sd_path sd, runs (cook_step c w sd)) :: build_runs c r (build_step c w sd)
     end.
 End Hash.
